@@ -169,8 +169,8 @@ package jsonpatch
 
 //@ func (*lazyNode).tryDoc
 //@   requires node: nodeOK(n)
-//@   ensures[C15] parsed-object-carries-options: result ==> n.doc.opts != nil
-//@   modifies n.doc, n.which, n.doc.obj, n.doc.keys
+//@   ensures[C15] parsed-object-carries-options: result ==> n.doc.opts == options
+//@   modifies n.doc, n.which, n.doc.obj, n.doc.keys, n.doc.opts
 //@   ensures[C01,C05] doc-ptr: n.doc == old(n.doc) || fresh(n.doc) || n.doc == nil
 //@   ensures[C01,C05] frame-docs: forall d *partialDoc {d.obj} {d.keys} :: old(allocated(d) && d.obj != nil) ==> d.obj == old(d.obj) && d.keys == old(d.keys)
 //@   requires unparsed: n.which == eRaw
@@ -470,6 +470,8 @@ package jsonpatch
 
 //@ func (Patch).test
 //@   requires args: doc != nil && options != nil && conOK(*doc)
+//@   callsite[C15] equal#1 whole-document-compared-with-the-call-options: arg_options == options
+//@   callsite[C15] equal#2 value-compared-with-the-call-options: arg_options == options
 //@   requires op: opOK(op) && validOp(op)
 //@   ensures[C04] container: conOK(*doc) && *doc == old(*doc)
 //@   ensures[C08] attrs: !isCopyLimit(err)
@@ -514,9 +516,13 @@ package jsonpatch
 // ---- structural equality of two nodes (C06) ----
 
 //@ func (*lazyNode).equal
+//@   callsite[C15] tryDoc#1 receiver-parsed-with-the-call-options: arg_options == options
+//@   callsite[C15] tryDoc#2 operand-parsed-with-the-call-options: arg_options == options
+//@   callsite[C15] equal#1 members-compared-with-the-call-options: arg_options == options
+//@   callsite[C15] equal#2 elements-compared-with-the-call-options: arg_options == options
 //@   requires recv: nodeOK(n) && (n.which == eAry ==> n.ary != nil)
 //@   requires other: o == nil || (nodeOK(o) && (o.which == eAry ==> o.ary != nil))
-//@   modifies region(lazyNode.which), region(lazyNode.doc), region(lazyNode.ary), region(partialDoc.obj), region(partialDoc.keys), region(partialArray.nodes)
+//@   modifies region(lazyNode.which), region(lazyNode.doc), region(lazyNode.ary), region(partialDoc.obj), region(partialDoc.keys), region(partialDoc.opts), region(partialArray.nodes)
 //@   ensures[C01,C05] parsed-untouched: forall m *lazyNode {m.which} {m.doc} {m.ary} :: (old(allocated(m) && m.which == eDoc) ==> m.which == eDoc && m.doc == old(m.doc)) && (old(allocated(m) && m.which == eAry) ==> m.which == eAry && m.ary == old(m.ary))
 //@   ensures[C01,C05] docs-untouched: forall d *partialDoc {d.obj} {d.keys} :: old(allocated(d) && d.obj != nil) ==> d.obj == old(d.obj) && d.keys == old(d.keys)
 //@   ensures[C01,C05] arrays-untouched: forall a *partialArray {a.nodes} :: old(allocated(a) && a.nodes != nil) ==> a.nodes == old(a.nodes)
